@@ -120,6 +120,27 @@ def rule_qlim(ctx):
     ctx.ob(R, f"{NR}::_run_ac_pf_with_qlims_enforced::restore", "gen[limited, QG] = fixedQg[limited]" in t and "bus[:, [PD, QD]] = bus_backup_p_q" in t
            and "gen[limited, GEN_STATUS] = 1" in t,
            "after the loop Qg of limited gens is the stored limit, they are switched on again and the bus demand is restored", fi.loc(tail[0]) if tail else fi.loc())
+    # the demand adjustment of a switched-off generator takes P and Q from the generator matrix row (QG of a generator limited in an
+    # earlier round is zero after pfsoln, PD is restored every round, QD is not: any other source double counts)
+    adj = []
+    if loops:
+        for st in ast.walk(loops[0]):
+            tgt = st.targets[0] if isinstance(st, ast.Assign) else (st.target if isinstance(st, ast.AugAssign) else None)
+            if tgt is not None and isinstance(tgt, ast.Subscript) and norm(tgt.value, 10) == "bus" and any(c in norm(tgt.slice, 40) for c in ("PD", "QD")) \
+                    and norm(tgt.slice, 40).replace(" ", "").startswith(("bi,", "(bi,")):
+                adj.append(st)
+    okadj = bool(adj)
+    srcs = []
+    for st in adj:
+        val = st.value
+        cols = norm((st.targets[0] if isinstance(st, ast.Assign) else st.target).slice, 40).replace(" ", "")
+        sub = [x for x in ast.walk(val) if isinstance(x, ast.Subscript) and norm(x.value, 10) == "gen"]
+        srcs.append(f"{cols} <- {[norm(x, 40) for x in sub] or norm(val, 60)}")
+        want = cols.replace("bi,", "limited[i],").replace("PD", "PG").replace("QD", "QG")
+        if not any(norm(x.slice, 40).replace(" ", "") == want for x in sub) or "fixedQg" in norm(val, 200):
+            okadj = False
+    ctx.ob(R, f"{NR}::_run_ac_pf_with_qlims_enforced::adjust", okadj,
+           f"bus demand of a limited generator's bus is reduced by the generator row's own PG / QG: {srcs}", fi.loc(adj[0]) if adj else fi.loc())
     # the generator is pinned inside the loop: gen[mx, QG] = fixedQg[mx] and its bus becomes PQ
     ctx.ob(R, f"{NR}::_run_ac_pf_with_qlims_enforced::pin", "gen[mx, QG] = fixedQg[mx]" in txt and "BUS_TYPE] = PQ" in txt,
            "a limited generator is pinned at its limit and its bus becomes a PQ bus", fi.loc())
@@ -136,6 +157,11 @@ def run(ctx):
     rule_qlim(ctx)
     from rules.C01 import rule_zip_sibling
     rule_zip_sibling(ctx)
+    from rules import _lints
+    R6 = "SPLIT-TOTAL"
+    ctx.rule(R6, "an ordinary generator at a reference bus keeps its set-point: only the reference rows are assigned the slack share, which "
+                 "is the bus power minus the set-points of the other generators at that bus")
+    _lints.split_total(ctx, R6)
 
 
 def variants(repo):
@@ -148,7 +174,10 @@ def variants(repo):
         V("gen p ignores scaling", bg, in_function("_build_pp_gen", lambda s: s.replace(' * gen_is_df["scaling"].values', "", 1) if ' * gen_is_df["scaling"].values' in s else s.replace("scaling", "in_service", 1)), "gen-builder:store:ppc.gen.PG"),
         V("ext_grid angle not applied", bg, in_function("_build_pp_ext_grid", lambda s: s.replace('net["ext_grid"]["va_degree"].values[eg_is]', "0.", 1) if 'net["ext_grid"]["va_degree"].values[eg_is]' in s else s.replace("va_degree", "vm_pu", 1)), "store:ppc.bus.VA"),
         V("upper violators fixed at lower limit", nr, replace_once("fixedQg[mx] = gen[mx, QMAX]", "fixedQg[mx] = gen[mx, QMIN]"), "fixedQg[mx]"),
+        V("demand adjusted by the stored limit", nr, replace_once("bus[bi, [PD, QD]] = (bus[bi, [PD, QD]] - gen[limited[i], [PG, QG]])", "bus[bi, PD] -= gen[limited[i], PG]\n                bus[bi, QD] -= fixedQg[limited[i]]"), "adjust"),
+        V("twin: adjustment column by column", nr, replace_once("bus[bi, [PD, QD]] = (bus[bi, [PD, QD]] - gen[limited[i], [PG, QG]])", "bus[bi, PD] -= gen[limited[i], PG]\n                bus[bi, QD] -= gen[limited[i], QG]"), None),
         V("loop exits with lower violations", nr, replace_once("if len(mx) > 0 or len(mn) > 0:", "if len(mx) > 0:"), "QLIM-LOOP"),
+        V("ordinary gen at the slack bus shares the slack power", "pandapower/pypower/pfsoln.py", replace_once("gen[ext_grids, PG] = p_ext_grids / len(ext_grids)", "gen[gens_at_bus, PG] = p_bus / len(gens_at_bus)"), "SPLIT-TOTAL"),
         V("zip coefficient not averaged", "pandapower/build_bus.py", in_function("_calc_pq_elements_and_add_on_ppc", replace_once("CZD_Q] = cz_q_sum / no_loads", "CZD_Q] = cz_q_sum")), "ZIP-SIBLING"),
         V("step lost for plain shunts next to table shunts", rb, in_function("_get_shunt_results", lambda s: s.replace("merged_df['p_mw'].values).astype(np.float64)\n", "merged_df['p_mw'].values).astype(np.float64)\n            step = 1\n", 1).replace("merged_df['p_mw_char'].values/merged_df['step'].values", "merged_df['p_mw_char'].values", 1)), "res_shunt.p_mw"),
         V("shunt linear in voltage", rb, in_function("_get_shunt_results", replace_once("p_shunt = u_shunt ** 2 * p_shunt_step * shunt_is * v_ratio * step", "p_shunt = u_shunt * p_shunt_step * shunt_is * v_ratio * step")), "res_shunt.p_mw"),
